@@ -62,6 +62,11 @@ PROPS = {
                            runner="keeper.VerifRtRun", runner_import='"github.com/initia-labs/OPinit/x/opchild/keeper"')],
                 bounds=["validator stores: at most 2 (quick) / 3 (thorough) entries in the pre-state", "one plan, at an arbitrary height relative to the block height; plan operator and key each new or already stored; executor list of 0..2"],
                 outside=["several plans at one height (the plan map is keyed by height)"], assumptions=COMMON_ASSUME + ["consensus address is an injective function of the public key"]),
+    "C19": dict(runs=[dict(pkg="./x/ophost/types/hook", overlay="harness/hook", harness="^Harness_C19_", pkgname="hook", native=["rt.go.tmpl", "hook_native.go.tmpl"]),
+                      oph("^Harness_C19_")],
+                bounds=["channel/permission tables of 2 (quick) / 3 (thorough) channels with arbitrary state", "metadata listing 0..2 channels", "the three hook entry points; the three ophost handlers that call the hook"],
+                outside=["which byte strings encoding/json accepts as the documented structure (hasPermChannels is stubbed as a deterministic function of the metadata bytes: reflection-based library code is not encodable)"],
+                assumptions=COMMON_ASSUME + ["the permission keeper's SetAdmin may fail arbitrarily; IsTaken/HasAdminPermission follow the table"]),
     "C20": dict(runs=[
                     dict(pkg="./x/opchild/ante,./x/opchild/keeper", overlays=[("./x/opchild/ante", "harness/ante"), ("./x/opchild/keeper", "harness/opchild")],
                          harness="^Harness_C20_", pkgname="ante", native=["rt.go.tmpl", "ante_native.go.tmpl", "ante_extra.go.tmpl"],
